@@ -548,9 +548,23 @@ pub fn section_struct<W: Write>(file: &AsepriteFile, w: &mut W) -> fmt::Result {
     // sprite user data (kind 0) right after line 2
     put_user_data(w, 0, 0, 0, file.sprite_user_data())?;
 
+    // 97 k ..: two public routes to one value disagree (printed only then, so that model and expectation, which have
+    // no such line, differ from the observation): 1 size() vs width()/height(), 2 PixelFormat::transparent_color_index
+    // vs AsepriteFile::transparent_color_index, 3 f: Frame::id, 4 id: ColorPaletteEntry::raw_rgba8
+    if file.size() != (file.width(), file.height()) {
+        writeln!(w, "97 1")?;
+    }
+    if file.pixel_format().transparent_color_index() != file.transparent_color_index() {
+        writeln!(w, "97 2")?;
+    }
+
     // 3 f duration
     for f in 0..num_frames {
-        writeln!(w, "3 {} {}", f, file.frame(f).duration())?;
+        let fr = file.frame(f);
+        if fr.id() != f {
+            writeln!(w, "97 3 {}", f)?;
+        }
+        writeln!(w, "3 {} {}", f, fr.duration())?;
     }
 
     // 4 / 5 / user data (kind 1) per layer
@@ -653,6 +667,9 @@ pub fn section_struct<W: Write>(file: &AsepriteFile, w: &mut W) -> fmt::Result {
             while found < n && k < 65536 {
                 if let Some(e) = pal.color(k) {
                     found += 1;
+                    if e.raw_rgba8() != [e.red(), e.green(), e.blue(), e.alpha()] {
+                        writeln!(w, "97 4 {}", e.id())?;
+                    }
                     writeln!(
                         w,
                         "14 {} {} {} {} {} {}",
